@@ -22,7 +22,7 @@ impl Adapter for CoalesceAd {
         "coalesce"
     }
     fn gen_cfg(&mut self, _rng: &mut Rng, _size: Size) -> Value {
-        json!({"hm": _rng.below(3), "x": 0, "ctor": _rng.below(2)})
+        json!({"hm": _rng.below(4), "x": 0, "ctor": _rng.below(2)})
     }
     fn build(&mut self, cfg: &Value, sim: &mut Sim) {
         let layer: CoalesceLayer<u32, Req, fn(&Req) -> u32> = if cfg["ctor"].as_u64().unwrap_or(0) == 1 {
@@ -34,9 +34,7 @@ impl Adapter for CoalesceAd {
     }
     fn mk(&mut self, req: &Req) -> CallFut {
         let f = self.svc.as_mut().unwrap().with(|s| {
-            let w = futures::task::noop_waker();
-            let mut cx = std::task::Context::from_waker(&w);
-            let _ = s.poll_ready(&mut cx);
+            ready_unless_parked(s);
             s.call(req.clone())
         });
         keep_alive(f, |r| match r {
